@@ -74,6 +74,37 @@ def int_lines(rng, quick):
     return sorted(vals)
 
 
+def req_pdu(parts):
+    """independent encoding of REQ = get INT OIDS | getnext INT OIDS | getbulk INT INT INT OIDS (OIDS: `-` or HEX,HEX..)"""
+    kind = parts[0]
+    if kind == "getbulk":
+        rid, a, b, oids = int(parts[1]), int(parts[2]), int(parts[3]), parts[4]
+        tag = 0xA5
+    else:
+        rid, a, b, oids = int(parts[1]), 0, 0, parts[2]
+        tag = 0xA0 if kind == "get" else 0xA1
+    names = [] if oids == "-" else [bytes.fromhex(x) for x in oids.split(",")]
+    return ber.tlv(tag, ber.INT(rid) + ber.INT(a) + ber.INT(b) + ber.SEQ(*[ber.SEQ(ber.tlv(6, o), ber.NULL) for o in names]))
+
+
+def fits(ln):
+    """size of the minimal encoding of what the line asks for, or None when this oracle does not model the line"""
+    p = ln.split(" ")
+    try:
+        if p[0] == "encoid":
+            return len(ber.tlv(6, b"" if p[1] == "-" else bytes.fromhex(p[1])))
+        if p[0] == "encpdu":
+            return len(req_pdu(p[1:]))
+        if p[0] == "encscoped":
+            return len(ber.scoped_pdu(b"" if p[1] == "-" else bytes.fromhex(p[1]), b"", req_pdu(p[2:])))
+        if p[0] == "encmsg" and p[1] in ("v1", "v2c"):
+            comm = b"" if p[2] == "-" else bytes.fromhex(p[2])
+            return len(ber.SEQ(ber.INT(0 if p[1] == "v1" else 1), ber.tlv(4, comm), req_pdu(p[3:])))
+    except (ValueError, IndexError):
+        return None
+    return None
+
+
 def run(chk, model_ok=True):
     rng = random.Random(chk.seed)
     quick = chk.tier == "quick"
@@ -99,8 +130,15 @@ def run(chk, model_ok=True):
             chk.violation("oracle", f"{why}: {ln[:160]} -> {out[:120]}",
                           {"kind": "oracle", "lines": [ln], "impl": [out], "expected": why})
 
+    CAP = 4080
     for ln, out in zip(st.lines, st.impl):
         parts = ln.split(" ")
+        if out == "err OutOfBuffer" or out.startswith("ok "):
+            need = fits(ln)
+            if need is not None and (need <= CAP) != out.startswith("ok "):
+                fail(ln, out, f"the minimal encoding takes {need} octets, the buffer holds {CAP}: the request must "
+                              f"{'be encoded' if need <= CAP else 'be refused with OutOfBuffer'}")
+                continue
         if parts[0] == "encint":
             v = int(parts[1])
             want = ber.INT(v).hex()
@@ -176,8 +214,47 @@ def run(chk, model_ok=True):
             continue
         if out != want:
             fail(ln, out, f"decode(encode(x)) != x (expected {want[:80]})")
+    # what the library encrypts it must be able to decrypt and decode back: encrypt requests (the scoped PDU is serialised
+    # behind pre-pushed padding in a private buffer), decrypt every ciphertext with the same key, compare with the decoding
+    # of an independently encoded scoped PDU
+    from props.c17 import lines_privenc
+    st3 = streams.Streams(chk, model_ok)
+    st3.add("privenc", lines_privenc(rng, 400 if quick else 8000))
+    st3.run()
+    dec, ref = [], []
+    for ln, out in zip(st3.lines, st3.impl):
+        if not out.startswith("ok "):
+            continue
+        p = ln.split(" ")
+        eng = b"" if p[6] == "-" else bytes.fromhex(p[6])
+        q = [x for x in p[7:] if not x.startswith("seed=")]
+        rid = int(q[1])
+        oids = [] if q[2] == "-" else [bytes.fromhex(x) for x in q[2].split(",")]
+        body = ber.tlv(0xA0, ber.INT(rid) + ber.INT(0) + ber.INT(0) + ber.SEQ(*[ber.SEQ(ber.tlv(6, o), ber.NULL) for o in oids]))
+        wantpt = ber.scoped_pdu(eng, b"", body)
+        for pair in out[3:].split(";")[:3]:
+            ct, salt = pair.split("/")
+            dec.append(f"privdec {p[1]} {p[2]} {p[3]} {p[4]} {salt} {ct}")
+            ref.append("scoped " + wantpt.hex())
+    st4 = streams.Streams(chk, model_ok)
+    st4.add("privdec-of-own-ciphertext", dec)
+    st4.add("scoped-reference", ref)
+    st4.run()
+    nd = len(dec)
+    for ln, out, refout in zip(dec, st4.impl[:nd], st4.impl[nd:]):
+        if out != refout:
+            fail(ln, out, f"the library cannot read back what it encrypted: decrypt gives {out[:100]}, the request was {refout[:100]}")
+    # end to end: what the Python clients encode for a call decodes back (independent decoder) to that call's arguments,
+    # call after call on one session (per-call overrides must not leak into later calls)
+    from props import c03
+    from vlib import e2e
+    for desc, why in c03.maxrep_histories(rng, e2e.env(), 6 if quick else 200):
+        if why:
+            fail(f"# {desc}", "-", f"{desc}: {why}")
     st.diff("C15 encoders")
     st2.diff("C15 decode-back")
+    st3.diff("C15 privenc")
+    st4.diff("C15 decrypt-back")
     st.coverage(
         "encint: every i64 with 1..2 content octets (thorough: 1..3), +-2^8 (thorough +-2^16) neighbourhoods of every "
         "+-2^(8k-1), +-2^(8k) boundary, random values of every byte length; encoid / encpdu / encmsg: generated "
@@ -185,7 +262,7 @@ def run(chk, model_ok=True):
         "independent minimal encoder, checked by an independent strict decoder, and decoded back with the library's "
         "own decoder. non-trivial = the encoder returned bytes (not OutOfBuffer); distinct request lines.",
         lambda ln, out: out.startswith("ok"))
-    chk.coverage["evaluations"] = len(st.lines) + len(st2.lines)
+    chk.coverage["evaluations"] = len(st.lines) + len(st2.lines) + len(st3.lines) + len(st4.lines)
     chk.coverage["integers"] = len(ints)
     chk.coverage["exhaustive"] = False
 
